@@ -125,6 +125,16 @@ def _np_checks(L, fails):
     n += 1
     if not (_same(c1, c2) and _same(r1, r2)):
         fails.append('polyfit differs')
+    # math.isclose / hypot (CPython's definitions)
+    import math as _m
+    for a, b, kw in [(1.0, 1.0 + 5e-10, {}), (1.0, 1.0 + 5e-9, {}), (0.0, 1e-12, {}), (0.0, 1e-12, dict(abs_tol=1e-9)), (1.7e9, 1.7e9 + 1, {}), (-3.0, -3.0, {}), (100.0, 101.0, dict(rel_tol=0.01))]:
+        n += 1
+        got = bool(L.math.isclose(_fr(a), _fr(b), **{k: _fr(v) for k, v in kw.items()}))
+        if got != _m.isclose(a, b, **kw):
+            fails.append('math.isclose(%r, %r, %r): shim %r' % (a, b, kw, got))
+    n += 1
+    if not _same(L.math.hypot(Fr(3), Fr(4)), 5.0):
+        fails.append('math.hypot differs')
     # exceptions that the repository depends on
     for f, shim_args, real_args in [('cross', ([Fr(1), Fr(2)], [[Fr(1), Fr(2)], [Fr(3), Fr(4)]]), ([1., 2.], [[1., 2.], [3., 4.]]))]:
         def exc_of(fn, a):
